@@ -40,7 +40,14 @@ def execute(spec, external_cancel_at=None, sample=None):
     buf = io.StringIO()
     try:
         with contextlib.redirect_stdout(buf):
-            r = vloop.run(b, external_cancel_at=external_cancel_at)
+            def second():
+                # forget the first run: the trace and the shutdown-call counters start again
+                del b.trace.events[:]
+                del samples[:]
+                for o in b.objs.values():
+                    if hasattr(o, '_sd_calls'):
+                        o._sd_calls = 0
+            r = vloop.run(b, external_cancel_at=external_cancel_at, again=bool(spec.get('rerun')), on_second_run=second)
     finally:
         PureScheduler._create_task = orig
     r.samples = samples
@@ -617,7 +624,13 @@ def sample_predicates(b):
 
 def o_c14(v):
     prev = {}
-    for tick, snap in v.r.samples:
+    samples = v.r.samples
+    if v.b.spec[v.b.top.name].get('rerun'):
+        # second run of the same tree: what the API says before this run has reset its jobs is about the
+        # previous run; the run under judgment starts with its first task creation
+        creates = [e[0] for e in v.ev if e[2] == 'create']
+        samples = [x for x in samples if creates and x[0] >= min(creates)]
+    for tick, snap in samples:
         for name, (idle, sched, running, done) in snap.items():
             if idle == sched:
                 return '%s: is_idle()=%r and is_scheduled()=%r' % (name, idle, sched)
